@@ -435,6 +435,16 @@ def _r15e(rep):
         rep.instance("R15e", DM, "DynamicalMatrixGL", f"{attr} written by {sorted(writers)}", writers <= allowed, f"{attr} is also written by {sorted(writers - allowed)}: a lazily built cache can outlive the state it was built from", line=cls.lineno)
 
 
+_run_main = run
+
+
+def run(rep: core.Report):
+    _run_main(rep)
+    from rules import shared_alias
+
+    shared_alias.run(rep, "R15f", ["phonopy/structure/symmetry.py", "phonopy/harmonic/force_constants.py", "phonopy/harmonic/dynamical_matrix.py", "phonopy/structure/atoms.py", "phonopy/structure/cells.py"])
+
+
 def selftest():
     V = []
     b = lambda name, file, old, new, rule, expect="", **kw: V.append(dict(name=name, kind="break", file=file, old=old, new=new, rule=rule, expect=expect, **kw))
